@@ -79,7 +79,11 @@ def classify(P, f, du, node, den_v, track_s):
         for cnt, other in ((e.left, e.right), (e.right, e.left)):
             if _is_count_expr(P, f, du, cnt, est):
                 oc = cone(du, other, est, interproc=False)
-                if not any(a.split(".")[-1] in COUNT_ATTRS + SIZE_ATTRS for a in oc.attrs) and (oc.params or oc.consts):
+                ob = _strip(other)
+                # a configuration scalar: a positive literal, a parameter of the function, or an attribute of one - never a value
+                # computed from the data inside the function (another count, a bincount, a sum)
+                is_cfg = (isinstance(ob, ast.Constant) and isinstance(ob.value, (int, float)) and ob.value > 0) or (isinstance(ob, ast.Name) and ob.id in f.params and all(d.how == "param" for d in du.reaching(est, ob.id))) or (isinstance(ob, ast.Attribute) and not oc.calls)
+                if is_cfg and not any(a.split(".")[-1] in COUNT_ATTRS + SIZE_ATTRS for a in oc.attrs) and (oc.params or oc.consts) and not oc.calls_any("bincount", "sum", "count_nonzero", "len"):
                     return "floored", f"G4 count + configuration scalar `{src(other)}`"
     # ---- by abstract type -------------------------------------------------------------------------
     c = cone(du, den, stmt, interproc=False)
